@@ -38,7 +38,7 @@ func genC32(t *rapid.T) c32Case {
 	// the reference model at execution time.
 	opGen := rapid.Custom(func(t *rapid.T) c32Op {
 		kind := rapid.IntRange(0, 9).Draw(t, "opkind")
-		order := rapid.IntRange(0, 5).Draw(t, "order")
+		order := rapid.IntRange(0, 23).Draw(t, "order")
 		switch {
 		case kind <= 3:
 			return c32Op{Op: "add", Key: rapid.SampledFrom(c32Keys).Draw(t, "key"), Val: rapid.IntRange(0, 99).Draw(t, "val"), Order: order}
@@ -54,6 +54,15 @@ func genC32(t *rapid.T) c32Case {
 	})
 	c.Ops = rapid.SliceOfN(opGen, 1, 30).Draw(t, "ops")
 	return c
+}
+
+func c32KeyIndex(k string) int {
+	for i, x := range c32Keys {
+		if x == k {
+			return i
+		}
+	}
+	return 0
 }
 
 var c32Perms = [][3]int{{0, 1, 2}, {0, 2, 1}, {1, 0, 2}, {1, 2, 0}, {2, 0, 1}, {2, 1, 0}}
@@ -109,7 +118,7 @@ func execC32(c c32Case) vkit.Result {
 					} else {
 						val, ok := mp.Get(k)
 						a[k] = ok
-						v[k] = val
+						v[k] = val % 100
 					}
 				}
 				answers["point"] = a
@@ -129,40 +138,67 @@ func execC32(c c32Case) vkit.Result {
 						a[k] = true
 					}
 				} else {
-					ks := mp.Keys()
-					sk := mp.SortedKeys()
-					vs := mp.Values()
-					sv := mp.SortedValues()
-					listLen = len(ks)
-					if !sort.StringsAreSorted(sk) {
-						res.Violate("C32/map/sortedkeys-unsorted", "step %d: %v", step, sk)
+					// the four listing calls are issued in a generated order and
+					// each one is judged on its own: one of them may purge expired
+					// entries as a side effect and so hide what another would list
+					type listing struct {
+						name string
+						keys []string
+						vals map[string]int
 					}
-					if len(sk) != len(ks) || len(vs) != len(ks) || len(sv) != len(ks) {
-						res.Violate("C32/map/listings-disagree", "step %d: keys=%v sorted=%v values=%v sortedvalues=%v", step, ks, sk, vs, sv)
-					}
-					for _, k := range ks {
-						if a[k] {
-							res.Violate("C32/map/keys-duplicate", "step %d: %v", step, ks)
+					var ls []listing
+					decode := func(vs []int) ([]string, map[string]int) {
+						ks := make([]string, 0, len(vs))
+						m := map[string]int{}
+						for _, v := range vs {
+							k := c32Keys[(v/100)%len(c32Keys)]
+							ks = append(ks, k)
+							m[k] = v % 100
 						}
-						a[k] = true
+						return ks, m
 					}
-					v := map[string]int{}
-					if len(sv) == len(sk) {
-						for i, k := range sk {
-							v[k] = sv[i]
-							if !a[k] {
-								res.Violate("C32/map/listings-disagree", "step %d: SortedKeys has %q, Keys does not", step, k)
+					calls := []func(){
+						func() { ls = append(ls, listing{name: "keys", keys: mp.Keys()}) },
+						func() {
+							sk := mp.SortedKeys()
+							if !sort.StringsAreSorted(sk) {
+								res.Violate("C32/map/sortedkeys-unsorted", "step %d: %v", step, sk)
 							}
-						}
+							ls = append(ls, listing{name: "sortedkeys", keys: sk})
+						},
+						func() {
+							ks, m := decode(mp.Values())
+							ls = append(ls, listing{name: "values", keys: ks, vals: m})
+						},
+						func() {
+							sv := mp.SortedValues()
+							ks, m := decode(sv)
+							// SortedValues is ordered by key
+							if !sort.StringsAreSorted(ks) {
+								res.Violate("C32/map/sortedvalues-not-in-key-order", "step %d: %v", step, sv)
+							}
+							ls = append(ls, listing{name: "sortedvalues", keys: ks, vals: m})
+						},
 					}
-					vals["list"] = v
-					// Values() as multiset must equal SortedValues() as multiset
-					a1 := append([]int(nil), vs...)
-					a2 := append([]int(nil), sv...)
-					sort.Ints(a1)
-					sort.Ints(a2)
-					if fmt.Sprint(a1) != fmt.Sprint(a2) {
-						res.Violate("C32/map/values-disagree", "step %d: Values=%v SortedValues=%v", step, vs, sv)
+					for i := 0; i < 4; i++ {
+						calls[(i+order/6)%4]()
+					}
+					for _, l := range ls {
+						la := map[string]bool{}
+						for _, k := range l.keys {
+							if la[k] {
+								res.Violate("C32/map/"+l.name+"-duplicate", "step %d: %v", step, l.keys)
+							}
+							la[k] = true
+						}
+						answers[l.name] = la
+						if l.vals != nil {
+							vals[l.name] = l.vals
+						}
+						if l.name == "keys" {
+							listLen = len(l.keys)
+							a = la
+						}
 					}
 				}
 				answers["list"] = a
@@ -189,8 +225,8 @@ func execC32(c c32Case) vkit.Result {
 				case 1:
 					if !a[k] {
 						res.Violate(fmt.Sprintf("C32/%s/%s/absent-before-expiry", c.Kind, kind), "step %d key %q now=%v exp=%v", step, k, now, model[k].exp)
-					} else if mp != nil {
-						if got := vals[kind][k]; got != model[k].val {
+					} else if vs, ok := vals[kind]; ok && mp != nil {
+						if got := vs[k]; got != model[k].val {
 							res.Violate(fmt.Sprintf("C32/map/%s/stale-value", kind), "step %d key %q got %d want %d", step, k, got, model[k].val)
 						}
 					}
@@ -198,8 +234,10 @@ func execC32(c c32Case) vkit.Result {
 			}
 			if st == 2 {
 				hasBoundary = true
-				if answers["point"][k] != answers["list"][k] {
-					res.Violate(fmt.Sprintf("C32/%s/expiry-instant/point-vs-listing", c.Kind), "step %d key %q at exact expiry: point query=%v listing=%v", step, k, answers["point"][k], answers["list"][k])
+				for kind, a := range answers {
+					if kind != "point" && answers["point"][k] != a[k] {
+						res.Violate(fmt.Sprintf("C32/%s/expiry-instant/point-vs-listing", c.Kind), "step %d key %q at exact expiry: point query=%v %s=%v", step, k, answers["point"][k], kind, a[k])
+					}
 				}
 			}
 		}
@@ -221,7 +259,7 @@ func execC32(c c32Case) vkit.Result {
 			if set != nil {
 				set.Add(op.Key)
 			} else {
-				mp.Set(op.Key, op.Val)
+				mp.Set(op.Key, c32KeyIndex(op.Key)*100+op.Val)
 			}
 			model[op.Key] = ent{exp: clock.Now().Add(ttl), val: op.Val}
 		case "remove":
@@ -253,7 +291,7 @@ func execC32(c c32Case) vkit.Result {
 func TestC32(t *testing.T) {
 	vkit.Run(t, vkit.Spec[c32Case]{
 		ID:   "C32",
-		Rule: "rapid-generated histories of add/remove/advance over 4 keys on SetWithTTL[string] / MapWithTTL[string,int] with a fake clock; advances are aimed at exact expiry instants (+-1ns); after every step all query kinds are issued in a generated order and compared to a reference model. Non-trivial: a probe issued at an exact expiry instant of some key while >=1 other key is live. Distinct = distinct case JSON.",
+		Rule: "rapid-generated histories of add/remove/advance over 4 keys on SetWithTTL[string] / MapWithTTL[string,int] with a fake clock; advances are aimed at exact expiry instants (+-1ns); after every step all query kinds (point, every listing call separately: Keys/SortedKeys/Values/SortedValues or Members, and Length) are issued in a generated order and each answer is compared to a reference model on its own. Non-trivial: a probe issued at an exact expiry instant of some key while >=1 other key is live. Distinct = distinct case JSON.",
 		Assumptions: []string{
 			"clockwork.FakeClock faithfully stands in for the real clock (containers only call Clock.Now)",
 			"at the exact expiry instant either answer is accepted, but all query kinds must agree",
